@@ -595,6 +595,54 @@ func (c *FnCtx) execRange(st *State, x *ast.RangeStmt, label string) []Exit {
 		set(x.Key, keyV)
 		set(x.Value, valV)
 	}
+	if mt, ok := xt.Underlying().(*types.Map); ok && n == "" && !c.bodyTouchesMap(x.Body, mt) {
+		// a map whose key set the body does not change: the loop visits every key exactly once, in an order given by
+		// the uninterpreted sequence mseq(dom) - duplicate-free and covering exactly the keys present when the loop starts
+		ks, _, mkey := c.mapKeys(mt)
+		hd := c.heapGetS(st, mkey+".dom", arrSort(SInt, arrSort(ks, SBool)))
+		dom := tApp("select", hd, coll.T)
+		seqS := seqSort(ks)
+		c.declSeq(seqS)
+		sn := sortName(seqS)
+		fseq, fpos := "mseq_"+sortName(ks), "mpos_"+sortName(ks)
+		c.decls.declFun(fseq, []Sort{arrSort(ks, SBool)}, seqS)
+		c.decls.declFun(fpos, []Sort{arrSort(ks, SBool), ks}, SInt)
+		c.addFact(fmt.Sprintf("(forall ((d %s) (i Int)) (! (=> (and (<= 0 i) (< i (len_%s (%s d)))) (and (select d (at_%s (%s d) i)) (= (%s d (at_%s (%s d) i)) i))) :pattern ((at_%s (%s d) i))))", arrSort(ks, SBool), sn, fseq, sn, fseq, fpos, sn, fseq, sn, fseq))
+		c.addFact(fmt.Sprintf("(forall ((d %s) (k %s)) (! (=> (select d k) (and (<= 0 (%s d k)) (< (%s d k) (len_%s (%s d))) (= (at_%s (%s d) (%s d k)) k))) :pattern ((select d k))))", arrSort(ks, SBool), ks, fpos, fpos, sn, fseq, sn, fseq, fpos))
+		c.assumeNote("range over a map whose key set the body does not change visits every key present at the start exactly once (order arbitrary)")
+		S := &Val{T: tApp(fseq, dom), S: seqS}
+		n = c.seqLen(S)
+		c.rangeLen[x] = n
+		c.mapSeqOf[x] = S
+		idxObj := types.NewVar(x.Pos(), c.pkg.Types, fmt.Sprintf("range_mi_%d", c.loopOrd[x]), types.Typ[types.Int])
+		st.vars[idxObj] = &Val{T: "0", S: SInt, Typ: types.Typ[types.Int]}
+		c.rangeIdx[x] = idxObj
+		c.hiddenIdx[x] = idxObj
+		cond := func(s *State) string { return tApp("<", s.vars[idxObj].T, n) }
+		body := func(s *State) []Exit {
+			i := s.vars[idxObj]
+			s.assume(tAnd(tApp("<=", "0", i.T), tApp("<", i.T, n)))
+			kv := &Val{T: c.seqAt(S, i.T), S: ks, Typ: mt.Key()}
+			var vv *Val
+			if x.Value != nil {
+				v, present := c.mapLoad(s, coll, mt, kv)
+				s.assume(present)
+				vv = v
+			}
+			var kk *Val
+			if x.Key != nil {
+				kk = kv
+			}
+			declKV(s, kk, vv)
+			return c.exec(s, x.Body)
+		}
+		post := func(s *State) []Exit {
+			i := s.vars[idxObj]
+			s.vars[idxObj] = &Val{T: tApp("+", i.T, "1"), S: SInt, Typ: i.Typ}
+			return normal(s)
+		}
+		return c.execLoop(st, x, label, x.Body, cond, body, post)
+	}
 	if n == "" {
 		// unordered / unknown iteration: arbitrary number of iterations with havoced key/value
 		c.assumeNote("range over map/channel/func: iterations are arbitrary keys/values (" + c.pos(x) + ")")
@@ -701,4 +749,34 @@ func (c *FnCtx) sortOfHeapKey(k string) (Sort, bool) {
 		return "", false
 	}
 	return srt, true
+}
+
+// bodyTouchesMap: may the loop body change the key set of a map of this type? (syntactic: an assignment to an index
+// expression of such a map, a delete or clear on it, or any call that is not known to leave maps of this type alone)
+func (c *FnCtx) bodyTouchesMap(body ast.Node, mt *types.Map) bool {
+	touched := false
+	ast.Inspect(body, func(n ast.Node) bool {
+		switch x := n.(type) {
+		case *ast.AssignStmt:
+			for _, l := range x.Lhs {
+				if ie, ok := l.(*ast.IndexExpr); ok {
+					if t := c.typeOf(ie.X); t != nil {
+						if m2, ok := t.Underlying().(*types.Map); ok && types.Identical(m2, mt) {
+							touched = true
+						}
+					}
+				}
+			}
+		case *ast.CallExpr:
+			ci := c.calleeOf(x)
+			if ci.builtin == "delete" || ci.builtin == "clear" {
+				touched = true
+			}
+			if ci.fn != nil && c.isRepoFunc(ci.fn) {
+				touched = true // repo callees are not analysed for map writes here
+			}
+		}
+		return true
+	})
+	return touched
 }
